@@ -12,8 +12,9 @@ RULE = ("Hypothesis rule-based state machine over one AurelCore instance: the "
         "(clear_cache_every_nbr_calc 1..30, memory_threshold from 0.5x one "
         "scalar field up to 4 GB); rules request any of the 161 description "
         "keys (branch-guard keys and their dependants weighted up), call the "
-        "tensor-calculus helpers on generated smooth fields, or re-access an "
-        "earlier request. After every step the returned value is compared "
+        "tensor-calculus helpers on generated smooth fields, re-access an "
+        "earlier request, make a bracket request for a method that takes "
+        "arguments, or (rarely) call freeze_data() again. After every step the returned value is compared "
         "leaf-wise with what a fresh never-evicting instance returns for "
         "that single request: |a-b| <= 1e-10*scale + 10*E_k (E_k = "
         "difference between FD orders p and p+2 of the fresh value), else "
